@@ -27,7 +27,21 @@ type c01 struct {
 	shape map[int]string
 	div10 bool
 	calls int
+	beta  map[int]int
 	st    *Stats
+}
+
+// betaTag buckets the balance factor of a register for the notes.
+func (r *c01) betaTag(reg int) string {
+	switch β := r.beta[reg]; {
+	case β >= 990:
+		return "beta>=990"
+	case β >= 900:
+		return "beta>=900"
+	case β >= 770:
+		return "beta>=770"
+	}
+	return ""
 }
 
 // The comparators deliberately return magnitudes other than 1: any sign-correct int is a legal
@@ -140,6 +154,7 @@ func (r *c01) Exec(op []string) string {
 	case "reset":
 		r.regs = map[int]*stree.Tree[int]{}
 		r.shape = map[int]string{}
+		r.beta = map[int]int{}
 		r.div10 = len(op) > 1 && op[1] == "div10"
 		return "-"
 	case "new":
@@ -159,6 +174,9 @@ func (r *c01) Exec(op []string) string {
 				}
 				seen[c] = true
 			}
+			if n := len(keys); len(seen) == n && n >= 63 && (n&(n-1) == 0 || n&(n+1) == 0 || (n-1)&(n-2) == 0) {
+				r.st.Note("new-distinct-n=2^k-1|2^k|2^k+1(n>=63)")
+			}
 		}
 		b := 0
 		if len(keys) > 0 {
@@ -167,6 +185,7 @@ func (r *c01) Exec(op []string) string {
 		if β < 0 || β > 1000 {
 			r.st.Note("new-beta-out-of-range")
 		}
+
 		func() {
 			defer func() {
 				if x := recover(); x != nil {
@@ -178,6 +197,7 @@ func (r *c01) Exec(op []string) string {
 			}()
 			delete(r.regs, reg)
 			r.regs[reg] = stree.New(β, r.cmp, keys...)
+			r.beta[reg] = β
 		}()
 		if r.regs[reg] == nil {
 			return "r=panic"
@@ -189,6 +209,7 @@ func (r *c01) Exec(op []string) string {
 			return "r=panic"
 		}
 		r.regs[d] = r.regs[s].Clone()
+		r.beta[d] = r.beta[s]
 		r.st.Note("clone")
 		return r.obs("-", d, 0)
 	}
@@ -220,6 +241,9 @@ func (r *c01) Exec(op []string) string {
 			nw := r.shape[reg]
 			if i := strings.Index(nw, leaf); i < 0 || nw[:i]+"."+nw[i+len(leaf):] != old {
 				r.st.Note("goat-rebuild")
+				if tag := r.betaTag(reg); tag != "" {
+					r.st.Note("goat-rebuild-" + tag)
+				}
 			}
 		}
 		return o
@@ -235,6 +259,9 @@ func (r *c01) Exec(op []string) string {
 		ok := t.Remove(k)
 		if stree.VerifMax(t) != vmax {
 			r.st.Note("whole-rebuild")
+			if t.Len() >= 64 {
+				r.st.Note("whole-rebuild>=64keys")
+			}
 		}
 		if ok && t.IsEmpty() {
 			r.st.Note("drained-to-empty")
@@ -464,7 +491,7 @@ func (c *c01gen) newTree(reg, β int, keys []int) {
 	c.safely(func() { c.trees[reg] = stree.New(β, c.cmp, keys...) })
 }
 
-var c01Betas = []int{0, 1, 250, 500, 999, 1000}
+var c01Betas = []int{0, 1, 250, 500, 999, 1000, 990, 995, 998, 800, 900}
 
 func genC01History(g *G, maxOps int) []string {
 	c := &c01gen{g: g, div10: g.Chance(1, 3), trees: map[int]*stree.Tree[int]{}}
@@ -534,6 +561,76 @@ func genC01History(g *G, maxOps int) []string {
 	return c.ops
 }
 
+// genC01Fixed: the fixed cases of the second audit (§1 C01/C02), dealt to the shards with g.Each.
+//
+// (a) New from n distinct keys around the powers of two (C02: height = ⌊log2 n⌋), ascending and shuffled;
+// (b) path-shaped insertion orders (ascending, descending, zig-zag) at large β, long enough for the first
+// insert-side scapegoat rebuild where that is affordable: the first rebuild of a path needs n-1 > limit_β(n),
+// i.e. n = 35, 89, 213, 495, 1454 for β = 800, 900, 950, 975, 990 (3229 for 995, 19782 for 999: every
+// observation prints the whole tree, so a history costs O(n²) bytes; 995 is thorough only, 996..999 cannot
+// be reached and get a shorter history on which any rebuild would be a deviation);
+// (c) removal of most keys of a large tree in random order (delete-side whole-tree rebuilds of ≥ 64 keys).
+func genC01Fixed(g *G) {
+	for _, n := range []int{1, 2, 3, 4, 7, 8, 15, 16, 31, 32, 63, 64, 65, 127, 128, 129, 255, 256, 257} {
+		ks := make([]string, n)
+		for i := range ks {
+			ks[i] = strconv.Itoa(i)
+		}
+		g.Each([]string{"reset nat", fmt.Sprintf("new 0 250 %s", strings.Join(ks, " "))})
+		g.R.Shuffle(n, func(i, j int) { ks[i], ks[j] = ks[j], ks[i] })
+		g.Each([]string{"reset nat", fmt.Sprintf("new 0 %d %s", []int{0, 999, 500}[n%3], strings.Join(ks, " "))})
+	}
+	path := func(β, n int, pattern string, removes int) []string {
+		ops := []string{"reset nat", fmt.Sprintf("new 0 %d", β)}
+		var ks []int
+		for i := 0; i < n; i++ {
+			k := 1000 + i
+			switch pattern {
+			case "desc":
+				k = 1000 - i
+			case "zigzag":
+				if i%2 == 1 {
+					k = 1000 - i
+				}
+			}
+			ks = append(ks, k)
+			ops = append(ops, fmt.Sprintf("add 0 %d", k))
+		}
+		g.R.Shuffle(len(ks), func(i, j int) { ks[i], ks[j] = ks[j], ks[i] })
+		for i := 0; i < removes && i < len(ks); i++ {
+			ops = append(ops, fmt.Sprintf("remove 0 %d", ks[i]))
+		}
+		return ops
+	}
+	type bn struct{ β, n int }
+	sizes := []bn{{800, 60}, {900, 130}, {950, 300}, {975, 600}} // 1.2–1.7 × the length of the first rebuild
+	for _, x := range sizes {
+		for i, pat := range []string{"asc", "desc", "zigzag"} {
+			rm := 0
+			if i == x.β%3 && x.n <= 300 {
+				rm = x.n * 3 / 5
+			}
+			g.Each(path(x.β, x.n, pat, rm))
+		}
+	}
+	for i, pat := range []string{"asc", "desc", "zigzag"} {
+		if i == 0 || g.Thorough() {
+			g.Each(path(990, 1560, pat, 0))
+		}
+	}
+	if g.Thorough() {
+		g.Each(path(995, 3300, "asc", 0))
+	}
+	for β := 991; β <= 999; β++ {
+		g.Each(path(β, g.Scale(120, 400), []string{"asc", "desc", "zigzag"}[β%3], 0))
+	}
+	// delete-side: whole-tree rebuilds of large trees at the extreme and a middle balance factor
+	// (the tree is rebuilt when size < (max·β+1000)/2000: never for β = 0, at 49 of 200 keys for β = 500)
+	for _, β := range []int{0, 1, 500, 750, 1000} {
+		g.Each(path(β, 200, "asc", 190))
+	}
+}
+
 // c01Shard is the shard index the orchestrator encodes in the generator seed (seed*1000+shard).
 func c01Shard() int {
 	if len(os.Args) > 3 {
@@ -570,8 +667,9 @@ func genC01Exhaustive(g *G, length int, shard, nshards int) {
 func genC01(g *G) {
 	// out-of-range balance factors and the boundary ones
 	for _, β := range []int{-1, 1001, 0, 1000} {
-		g.Case([]string{"reset nat", fmt.Sprintf("new 0 %d 5 1 9 5 3", β)})
+		g.Each([]string{"reset nat", fmt.Sprintf("new 0 %d 5 1 9 5 3", β)})
 	}
+	genC01Fixed(g)
 	// LARGE bulk loads (size-dependent paths of New): already sorted with duplicates, reverse sorted, shuffled;
 	// natural comparison, so that equal keys are indistinguishable and Go's unstable sort cannot matter
 	for i, n := range []int{256, 300, 700} {
@@ -678,6 +776,10 @@ func genC02Limit(g *G) {
 	}
 	for i := 0; i < 20; i++ {
 		emit(g.Intn(990), nmax)
+	}
+	// the float-vs-exact tie is weakest where the logarithm's base is closest to 1
+	for i := 0; i < 2; i++ {
+		emit(990+g.Intn(10), nmax)
 	}
 }
 
